@@ -54,6 +54,14 @@ def cases(tier, seed):
         for j, (a, b) in enumerate(sel):
             out.append(dict(c, K=K, passes=[a, b], base='synth' if a in GATE else 'word',
                             scope=('explicit', 'both', 'implicit')[(i + j) % 3]))
+    # the same lowering once more, later in the same process
+    hist = designs.op_cases([1, 3], ops='|^+', mul_max=0) + designs.op_cases([3], ops='w+', dests=('reg',)) + designs.seq_cases()[:3] + \
+        designs.expr_cases(4 if tier == 'quick' else 40, seed + 5, n=6, maxw=3)
+    for i, c in enumerate(hist):
+        for p in PASSES:
+            if tier == 'quick' and p not in GATE and (i + len(p)) % 3:
+                continue
+            out.append(dict(c, K=2, passes=[p], base='synth' if p in GATE else 'word', scope='both', again=1))
     return out
 
 
@@ -126,8 +134,19 @@ def site_of(case):
     return 'C09:%s(%s):%s' % ('+'.join(case['passes']), case['base'], d)
 
 
+def history(case):
+    """`again`: the same lowering was already done (on a design built the same way) earlier in this process; nothing of it may
+    carry over into the lowering that is checked"""
+    for _ in range(case.get('again', 0)):
+        try:
+            apply_passes(case, prep(case), other=prep(case))
+        except Exception:
+            pass        # (reported by the case without history)
+
+
 def run_case(case, ob, tier):
     site = site_of(case)
+    history(case)
     A = prep(case)
     B = prep(case)
     fpA = c11.fingerprint(A)
@@ -162,6 +181,7 @@ def run_case(case, ob, tier):
 def replay(cex):
     case = cex['case']
     site = cex.get('site', '')
+    history(case)
     A = prep(case)
     B = prep(case)
     fpA = c11.fingerprint(A)
